@@ -19,7 +19,7 @@ type c20X struct {
 	LoopYield bool // the command loop parks at some of its yield points
 }
 
-var c20Patterns = []string{"bdat-rset-bdat", "lmtp-data-statuses", "bdat-quit", "bdat-disconnect", "data-twice", "bdat-stale-next-txn", "idle"}
+var c20Patterns = []string{"bdat-rset-bdat", "lmtp-data-statuses", "bdat-quit", "bdat-disconnect", "data-twice", "bdat-stale-next-txn", "idle", "starttls"}
 
 func c20Conn(t *Tape, sc *Scenario, idx int, pat int) (ConnScript, ConnBackendPlan) {
 	var cp ConnBackendPlan
@@ -70,12 +70,28 @@ func c20Conn(t *Tape, sc *Scenario, idx int, pat int) (ConnScript, ConnBackendPl
 			cp.Data = append(cp.Data, slow())
 		}
 		steps = append(steps, Step{Kind: kQuit, Data: []byte("QUIT\r\n"), Wait: 1, Pre: p()})
+	case 7: // an upgrade to TLS (when the server offers it; otherwise STARTTLS is refused and the rest goes on in plaintext)
+		if sc.Srv.TLS == tlsStart {
+			if t.Bool() {
+				env(0)
+			}
+			steps = append(steps, Step{Kind: kStartTLS, Data: []byte("STARTTLS\r\n"), Wait: 1, Pre: p()})
+			steps = append(steps, Step{Kind: kHelo, Data: heloLine(sc.Srv), Wait: 1, Pre: p()})
+		}
+		env(1)
+		steps = append(steps, Step{Kind: kData, Data: []byte("DATA\r\n"), Wait: 1}, Step{Kind: kBody, Data: []byte("hello\r\n.\r\n"), Need: 354, Wait: -1, Pre: p()})
+		cp.Data = []DataPlan{slow()}
+		steps = append(steps, Step{Kind: kQuit, Data: []byte("QUIT\r\n"), Wait: 1, Pre: p()})
 	default: // a connection that just sits there
 		steps = append(steps, Step{Kind: kStall, Pre: Dur(2+t.Intn(20)) * time.Millisecond})
 		steps = append(steps, Step{Kind: kQuit, Data: []byte("QUIT\r\n"), Wait: 1})
 	}
 	if t.Chance(1, 3) {
 		cp.ParkNewSession = Dur(1+t.Intn(6)) * 500 * time.Microsecond
+	}
+	if t.Chance(1, 3) {
+		// a slow Logout (wherever the library calls it without its mutex: the session given up at STARTTLS)
+		cp.ParkLogout = Dur(1+t.Intn(6)) * 400 * time.Microsecond
 	}
 	if t.Chance(1, 4) {
 		cp.ParkMail = Dur(1+t.Intn(4)) * 400 * time.Microsecond
@@ -111,8 +127,11 @@ func genC20(t *Tape, tier string) *Scenario {
 	if sc.Srv.MaxLine != 0 && sc.Srv.MaxLine < 200 {
 		sc.Srv.MaxLine = 200
 	}
-	if t.Chance(1, 4) {
+	switch t.Pick(2, 1, 1) {
+	case 1:
 		sc.Srv.TLS = tlsImplicit
+	case 2:
+		sc.Srv.TLS = tlsStart
 	}
 	sc.Srv.Debug = false // Debug is an io.Writer the caller must make goroutine-safe; not part of the property
 	if sc.Srv.LMTP && t.Bool() {
@@ -363,6 +382,11 @@ func classifyC20(sc *Scenario, h *History, st *Stats) string {
 			st.Probes["shutdown_context_expired"]++
 		}
 	}
+	for i := range sc.Conns {
+		if h.Conns[i].HandshakeDone && sc.Srv.TLS == tlsStart {
+			st.Probes["starttls_upgrade_completed"]++
+		}
+	}
 	for i, c := range sc.Conns {
 		if c.Silent && h.Conns[i].Accepted {
 			st.Faults["silent_peer"]++
@@ -429,7 +453,7 @@ func init() {
 		Real:        []string{"smtp.Server Serve/handleConn/Close/Shutdown", "smtp.Conn (every handler, Close, reset)", "BDAT and LMTP delivery goroutines", "io.Pipe", "sync primitives of the library", "Go race detector (second build)"},
 		Stub:        []string{"net.Listener (SimListener with scripted Accept errors)", "net.Conn (SimConn)", "Backend (SimBackend; sync-silent after a park so that it adds no happens-before edge)", "clock (synctest)", "SMTP clients (raw drivers)", "VerifYield hook (build tag verif) between the test and the closing of Server.done"},
 		Assumptions: []string{"the simulation cannot block a goroutine that holds a mutex (the fake clock would stop): a write without a deadline issued while Conn.locker is held is reported as the deadlock it is for a peer that does not read; the mutex is probed through a guarded hook, never in the race-detector build", "interleavings are controlled at blocking points and at the two yield hooks only; the race detector covers memory-level races inside straight-line stretches", "a porcupine timeout is inconclusive and never reported"},
-		Required:    []string{"callback_overlaps_running_delivery", "close_shutdown_overlap_via_yield_hook", "command_loop_parks_at_yield_points", "connection_closed_by_Server.Close", "second_close_or_shutdown", "serve_started_after_close", "shutdown_context_expired", "accept_permanent", "accept_temporary", "reply_write_failed", "silent_peer", "silent_peer_stalls_the_implicit_TLS_handshake", "reply_write_blocked_peer_not_reading"},
+		Required:    []string{"callback_overlaps_running_delivery", "close_shutdown_overlap_via_yield_hook", "command_loop_parks_at_yield_points", "connection_closed_by_Server.Close", "second_close_or_shutdown", "serve_started_after_close", "shutdown_context_expired", "accept_permanent", "accept_temporary", "reply_write_failed", "silent_peer", "silent_peer_stalls_the_implicit_TLS_handshake", "reply_write_blocked_peer_not_reading", "starttls_upgrade_completed"},
 		QuickRuns:   10000, ThoroughRuns: 800000,
 	})
 }
